@@ -3,6 +3,7 @@
 package main
 
 import (
+	"bytes"
 	"crypto/ecdsa"
 	"math/big"
 	"strconv"
@@ -58,7 +59,22 @@ func init() {
 		if pub == nil {
 			return "parse-failed"
 		}
-		return hx(secp.GenerateSharedSecret(priv, pub))
+		fresh := secp.GenerateSharedSecret(priv, pub)
+		// the same exchange on long-lived objects that earlier operations used with OTHER keys: a peer-key object
+		// overwritten in place and a private-key object whose scalar is Set in place.  The secret depends on
+		// the values only, never on object identity or on what was computed before.
+		reusePeer = *pub
+		reusePriv.Key.Set(&priv.Key)
+		viaFn := secp.GenerateSharedSecret(reusePriv, &reusePeer)
+		viaMethod, err := reusePriv.ECDH(&reusePeer)
+		again := secp.GenerateSharedSecret(priv, pub)
+		if err != nil || !bytes.Equal(fresh, viaFn) || !bytes.Equal(fresh, viaMethod) || !bytes.Equal(fresh, again) {
+			return "DEPENDS-ON-OBJECT-HISTORY fresh=" + hx(fresh) + " reused=" + hx(viaFn) + " method=" + hx(viaMethod)
+		}
+		if !pub.IsEqual(pubFromXY(a[1], a[2])) && a[3] == "0" {
+			return "PEER-KEY-MODIFIED"
+		}
+		return hx(fresh)
 	}
 	// interop with crypto/ecdsa over S256(): sign here / verify there and vice versa, key conversions
 	opImpl["interop"] = func(a []string) string {
@@ -98,6 +114,12 @@ func (zeroReader) Read(p []byte) (int, error) {
 }
 
 // pointsWithSpecialX: curve points whose x coordinate has a chosen shape (nearest abscissa at or above it)
+// long-lived objects shared by all `ecdh` operations of a run (see the op)
+var (
+	reusePeer secp.PublicKey
+	reusePriv = secp.NewPrivateKey(scalarFromHex("01"))
+)
+
 func (h *H) pointsWithSpecialX(n int) [][2]*big.Int {
 	one := big.NewInt(1)
 	var xs []*big.Int
